@@ -4,7 +4,7 @@ from . import common, projgen, projcheck, projrun
 
 PROF = projgen.profile(n_ctx=(2, 4), p_env=0.6, p_cli_define=0.6, p_varopts=0.15, p_tasks=0.15, p_custom_build=0.03, p_download=0.03,
                        p_notify_all=0.1, p_defaults=0.3, p_provides=0.35)
-OBS = ("status", "decision", "modules", "global_env", "module_env", "tasks", "ninja")
+OBS = ("status", "decision", "modules", "loaded", "global_env", "module_env", "tasks", "ninja")
 
 
 def merge_key(a, b):
